@@ -26,7 +26,7 @@ HEADER = (
 
 POOL = [
     ["none"], ["bool", True], ["bool", False], ["int", 0], ["int", 1], ["int", -1], ["float", 1.5], ["complex", 0.0, 1.0],
-    ["isub", 3], ["fsub", 0.5], ["fe", "half"], ["class", "ISub"], ["class", "FSub"], ["class", "CSub"], ["class", "FE"], ["class", "TSub"],
+    ["isub", 3], ["fsub", 0.5], ["fe", "half"], ["class", "ISub"], ["class", "FSub"], ["class", "CSub"], ["class", "TSub"],
     ["tuple", 899, [["fsub", 0.5]]], ["list", 898, [["fe", "one"]]],
     ["str", ""], ["str", "a"], ["bytes", "a"], ["ie", "x"], ["e", "a"], ["inst", "A", 0], ["inst", "B", 0], ["inst", "C", 0],
     ["class", "int"], ["class", "bool"], ["class", "A"], ["class", "B"], ["class", "str"],
@@ -220,7 +220,7 @@ def gen_member(rng, s, depth=3):
     if k == "subclass":
         inner = s[1]
         if inner[0] == "typed" and inner[1] in ("int", "float", "bool", "str", "A", "B", "C", "object", "complex"):
-            return ["class", rng.choice({"int": ["int", "bool", "ISub"], "float": ["float", "FSub", "FE", "int"], "A": ["A", "B"], "object": ["int", "A", "str"],
+            return ["class", rng.choice({"int": ["int", "bool", "ISub"], "float": ["float", "FSub", "int"], "A": ["A", "B"], "object": ["int", "A", "str"],
                                          "complex": ["complex", "CSub", "FSub", "ISub"]}.get(inner[1], [inner[1]]))]
         return None
     if depth <= 0:
@@ -427,7 +427,8 @@ def run(tier: str, replay: str | None = None):
             hist["laws_failed"][k] = hist["laws_failed"].get(k, 0) + 1
         if bad:
             attributed = False
-            if "model" in r and not G_has(r["case"], "alias") and not [k for k in r["obs"] if r["obs"][k] != r["model"][k]]:
+            # (alias cases have no verdict correspondence; the NewType finding is still recognised on the expansion)
+            if "model" in r and (G_has(r["case"], "alias") or not [k for k in r["obs"] if r["obs"][k] != r["model"][k]]):
                 cl = r["clauses"]
                 for fid, cond in (
                                   ("C04-newtype-accepts-supertype", set(bad) <= {"sound"} and cl["newtype"] and not cl["strict"]),
